@@ -58,6 +58,9 @@ func msgEvent(class string, d *decoded, cs *Case) ev.M {
 	if d.reused {
 		e["prev"] = d.prev
 	}
+	if d.hr != "" {
+		e["hr"], e["hnr"] = d.hr, d.hnr
+	}
 	if cs != nil {
 		e["case"] = cs.shape()
 	}
